@@ -94,18 +94,26 @@ func genNgapCase(t *rapid.T, allowFragment bool) ngapCase {
 		o.BigString = int(o.Force)
 		o.Budget = 100
 	}
-	g := gen.New(t, o)
 	ms := gen.Messages()
 	cs := gen.Containers()
-	k := rapid.IntRange(0, len(ms)+len(cs)-1).Draw(t, "entry")
-	if k < len(ms) {
-		m := ms[k]
-		pdu := g.PDU(m)
-		return newNgapCase("PDU/"+m.Name, pdu)
+	for try := 0; ; try++ {
+		g := gen.New(t, o)
+		k := rapid.IntRange(0, len(ms)+len(cs)-1).Draw(t, "entry")
+		var c ngapCase
+		if k < len(ms) {
+			m := ms[k]
+			pdu := g.PDU(m)
+			c = newNgapCase("PDU/"+m.Name, pdu)
+		} else {
+			e := cs[k-len(ms)]
+			v := g.Value(e.Type, gen.ParseTag(e.Tag), 1)
+			c = newNgapCase(e.Name, v.Interface())
+		}
+		// fragmentation sweep: retry (with fresh draws) until some string got the target length
+		if !allowFragment || g.Forced() || try >= 7 {
+			return c
+		}
 	}
-	e := cs[k-len(ms)]
-	v := g.Value(e.Type, gen.ParseTag(e.Tag), 1)
-	return newNgapCase(e.Name, v.Interface())
 }
 
 // libEncode: the library's encoder for this entry, with panics turned into errors.
